@@ -105,6 +105,8 @@ pub struct Shared {
     pub faults_fired: BTreeMap<String, u64>,
     pub probes: BTreeMap<String, u64>,
     pub panics: Vec<String>,
+    /// nodes whose tasks are not polled until the given virtual instant (ns): a stalled process
+    pub frozen: BTreeMap<usize, u64>,
 }
 
 #[derive(Clone)]
@@ -123,6 +125,7 @@ impl Handle {
             faults_fired: BTreeMap::new(),
             probes: BTreeMap::new(),
             panics: Vec::new(),
+            frozen: BTreeMap::new(),
         })))
     }
     pub fn spawn<F: Future<Output = ()> + Send + 'static>(&self, node: usize, name: &str, f: F) {
@@ -134,6 +137,29 @@ impl Handle {
     /// Drop every task of `node` at the next scheduling point.
     pub fn kill_node(&self, node: usize) {
         self.0.lock().unwrap().kill_q.push(node);
+    }
+    /// Stall `node`: none of its tasks is polled for `dur` of virtual time (sockets keep filling,
+    /// its timers fire late, peers see silence). A harness task lifts the stall.
+    pub fn freeze_node(&self, node: usize, dur: std::time::Duration) {
+        let until = seams::now_ns() + dur.as_nanos() as u64;
+        {
+            let mut g = self.0.lock().unwrap();
+            let e = g.frozen.entry(node).or_insert(0);
+            *e = (*e).max(until);
+        }
+        self.fault("freeze");
+        self.event(format!("node {node} frozen for {} ms", dur.as_millis()));
+        let h = self.clone();
+        self.spawn(0, "unfreeze", async move {
+            tokio::time::sleep(dur).await;
+            let now = seams::now_ns();
+            let mut g = h.0.lock().unwrap();
+            if g.frozen.get(&node).is_some_and(|u| *u <= now) {
+                g.frozen.remove(&node);
+                drop(g);
+                h.event(format!("node {node} resumes"));
+            }
+        });
     }
     /// Record an event: goes into the trace hash always, into the readable log if enabled.
     pub fn event(&self, s: impl AsRef<str>) {
@@ -304,7 +330,20 @@ impl Sim {
         for id in purged {
             q.member[id] = false;
         }
-        let n = q.order.len();
+        if q.order.is_empty() {
+            return None;
+        }
+        // positions (in the ready order) of tasks that may run: all of them unless a node is stalled
+        let cand: Vec<usize> = {
+            let g = self.handle.0.lock().unwrap();
+            if g.frozen.is_empty() {
+                (0..q.order.len()).collect()
+            } else {
+                let now = seams::now_ns();
+                (0..q.order.len()).filter(|i| !g.frozen.get(&slots[q.order[*i]].node).is_some_and(|u| *u > now)).collect()
+            }
+        };
+        let n = cand.len();
         if n == 0 {
             return None;
         }
@@ -319,18 +358,18 @@ impl Sim {
             SchedKind::Pct { .. } => {
                 let mut best = 0;
                 for i in 1..n {
-                    if self.slots[q.order[i]].prio > self.slots[q.order[best]].prio {
+                    if self.slots[q.order[cand[i]]].prio > self.slots[q.order[cand[best]]].prio {
                         best = i;
                     }
                 }
                 if self.change_points.contains(&step) {
-                    let id = q.order[best];
+                    let id = q.order[cand[best]];
                     self.low_prio -= 1;
                     self.slots[id].prio = self.low_prio;
                     // re-pick after demotion
                     best = 0;
                     for i in 1..n {
-                        if self.slots[q.order[i]].prio > self.slots[q.order[best]].prio {
+                        if self.slots[q.order[cand[i]]].prio > self.slots[q.order[cand[best]]].prio {
                             best = i;
                         }
                     }
@@ -339,7 +378,7 @@ impl Sim {
             }
             SchedKind::Starve { max_len, .. } => {
                 if self.starve_starts.contains(&step) && n >= 2 {
-                    let victim = q.order[self.rng.below(n as u64) as usize];
+                    let victim = q.order[cand[self.rng.below(n as u64) as usize]];
                     let len = self.rng.range(5, *max_len as u64);
                     self.starved = Some((victim, step + len));
                 }
@@ -347,8 +386,8 @@ impl Sim {
                     if step >= until {
                         self.starved = None;
                     } else if n >= 2 {
-                        let cands: Vec<usize> = (0..n).filter(|i| q.order[*i] != victim).collect();
-                        let c = cands[self.rng.below(cands.len() as u64) as usize];
+                        let cands: Vec<usize> = (0..n).filter(|i| q.order[cand[*i]] != victim).collect();
+                        let c = cand[cands[self.rng.below(cands.len() as u64) as usize]];
                         let id = q.order.remove(c);
                         q.member[id] = false;
                         return Some(id);
@@ -357,7 +396,7 @@ impl Sim {
                 self.rng.below(n as u64) as usize
             }
         };
-        let id = q.order.remove(idx);
+        let id = q.order.remove(cand[idx]);
         q.member[id] = false;
         Some(id)
     }
